@@ -441,6 +441,8 @@ func evTerm(op *Op) string {
 		return c.App("EWRet", outTerm(op.Out))
 	case "whand":
 		return "EWHandoff"
+	case "subcancel":
+		return "ESubCancel"
 	case "bcstart":
 		return c.App("EBcStart", c.Z(int64(op.Tx)))
 	case "bcret":
@@ -506,7 +508,7 @@ func bTerm(h *History) (string, string) {
 	for i := range h.Ops {
 		op := &h.Ops[i]
 		tr = append(tr, c.Pair(evTerm(op), obsTerm(op)))
-		s := map[string]string{"bc": "b", "conf": "c", "block": "B", "tickwait": "T", "wcall": "C", "wret": "r", "whand": "H", "wdone": "D", "stop": "S", "bcstart": "K", "bcret": "k"}[op.Kind]
+		s := map[string]string{"bc": "b", "conf": "c", "block": "B", "tickwait": "T", "wcall": "C", "wret": "r", "whand": "H", "wdone": "D", "stop": "S", "bcstart": "K", "bcret": "k", "subcancel": "X"}[op.Kind]
 		if (op.Kind == "bc" || (op.Kind == "bcret" && op.Obs == "ret")) && op.ORet != "nil" {
 			s = "x"
 		}
